@@ -290,7 +290,20 @@ class Gen:
             dups = [n for n, k in sorted(Counter(x for x in c['sym_names'].get(m['i'], []) if x).items()) if k >= 2]
             for n in dups[:3]:
                 first.append(['sym_by_name', m['i'], n])
-        # whole-table ops (used by the struct-cache two-file runs: decode everything of one file, then of another)
+        # whole-table ops (used by the two-file runs: decode everything of one file, then of another)
+        first.append(['sec_iter', None, None])
+        if self.gm:
+            first.append(['seg_iter', None, None])
+        for where in sorted(c['tags']):
+            first.append(['dyn_iter', list(where), None, None])
+        for i in sorted(c['symbols'])[:2]:
+            first.append(['sym_iter', i, None])
+        for where in sorted(c['notes'])[:2]:
+            first.append(['notes_iter', list(where), None])
+        for i in sorted(c['relocs'])[:2]:
+            first.append(['rel_iter', i, None])
+        for j in sorted(c['dynseg_syms'])[:1]:
+            first.append(['dynseg_sym_iter', j, None])
         d = self.dw
         if d and d.get('unit_meta'):
             offs = [m['off'] for m in d['unit_meta']][:3]
